@@ -54,6 +54,9 @@ Retype(c) == IF c.t \in {"stk", "cnd"} THEN TrLeaf(<<"q">>) ELSE TrCnd(<<"k">>, 
 RECURSIVE Mutants(_)
 Mutants(n) ==
   CASE n.t = "leaf" -> {[n EXCEPT !.v = IF n.ty = "bool" THEN BoolFlip(n.v) ELSE Bump(n.v)]}
+                       \* another Go type that prints the same text: 5 / "5" / 5.0, true / "true"
+                       \cup (IF n.ty = "int" THEN {[n EXCEPT !.ty = "str"], [n EXCEPT !.ty = "flt"]}
+                             ELSE IF n.ty = "bool" THEN {[n EXCEPT !.ty = "str"]} ELSE {})
     [] n.t = "nil"  -> {}
     [] n.t = "ptr"  -> {[n EXCEPT !.x = m] : m \in Mutants(n.x)}
     [] n.t = "sl"   -> UNION {{[n EXCEPT !.e[i] = m] : m \in Mutants(n.e[i])} : i \in 1..Len(n.e)}        \* every position
